@@ -40,6 +40,7 @@ type Case struct {
 	NestedAt    []int             `json:"nested_at"`      // per-mille positions of images whose recovery is itself crashed at every operation
 	KillAt      []int             `json:"kill_at"`        // per-mille positions re-run with a real SIGKILL
 	CutSeeds    []int             `json:"cut_seeds"`      // C14: drawn cut positions (per-mille of the unsynced tail)
+	Huge        bool              `json:"huge_record"`    // size class: one value of several MiB
 }
 
 func genCfg(t *rapid.T) crashlib.Cfg {
@@ -102,11 +103,30 @@ func genCase(t *rapid.T, multi bool) Case {
 		if !seen[k] {
 			seen[k] = true
 			c.W.Keys = append(c.W.Keys, vlib.Str(k))
+			if sib, ok := vlib.Sibling[k]; ok && !seen[sib] && len(c.W.Keys) < nk && rapid.Bool().Draw(t, "sibling") {
+				seen[sib] = true
+				c.W.Keys = append(c.W.Keys, vlib.Str(sib))
+			}
 		}
 	}
 	exists := map[int]bool{}
 	n := rapid.IntRange(12, 45).Draw(t, "ntxns")
-	c.W.Txns = genTxns(t, nk, n, 1, exists, multi, "w")
+	if rapid.IntRange(0, 19).Draw(t, "hugeRecord") == 0 {
+		// size class: a few transactions, one of them with a value of several MiB (one wal record
+		// larger than any buffer, block or default threshold); no flush unless the value forces it
+		c.W.Cfg.MemThreshold = rapid.SampledFrom([]int{0, 64 << 20}).Draw(t, "hugeMem")
+		n = rapid.IntRange(3, 6).Draw(t, "hugeN")
+		c.W.Txns = genTxns(t, nk, n, 1, exists, false, "w")
+		at := rapid.IntRange(0, n-1).Draw(t, "hugeAt")
+		c.W.Txns[at].Ops[0].Del = false
+		c.W.Txns[at].Ops[0].VLen = rapid.SampledFrom([]int{1 << 20, 5 << 20, 9 << 20}).Draw(t, "hugeLen")
+		for k, v := range c.W.Txns[at].Final() {
+			exists[k] = v != nil
+		}
+		c.Huge = true
+	} else {
+		c.W.Txns = genTxns(t, nk, n, 1, exists, multi, "w")
+	}
 	c.Followup = genTxns(t, nk, rapid.IntRange(2, 6).Draw(t, "nfollow"), 1000, exists, false, "f")
 	c.FollowEvery = rapid.IntRange(3, 9).Draw(t, "followEvery")
 	for i := 0; i < 6; i++ {
@@ -629,7 +649,11 @@ func (p *pipeline) runCase(c Case, fatal func(string, ...any)) {
 	dbDir := filepath.Join(base, "db")
 	snapDir := filepath.Join(base, "snaps")
 	ackPath := filepath.Join(base, "ack.log")
-	res := runChild(base, job{Mode: "run", Dir: dbDir, Workload: c.W, AckPath: ackPath, SnapDir: snapDir, MaxSnaps: 3000}, 120*time.Second)
+	maxSnaps := 3000
+	if c.Huge {
+		maxSnaps = 60
+	}
+	res := runChild(base, job{Mode: "run", Dir: dbDir, Workload: c.W, AckPath: ackPath, SnapDir: snapDir, MaxSnaps: maxSnaps}, 180*time.Second)
 	ackAll, _ := os.ReadFile(ackPath)
 	imgs := loadImages(snapDir)
 	if res.timedOut {
@@ -674,6 +698,9 @@ func (p *pipeline) runCase(c Case, fatal func(string, ...any)) {
 		}
 		run1 := crashlib.Run{Txns: c.W.Txns, Ack: crashlib.ParseAck(ackAll[:min64(im.meta.AckOff, int64(len(ackAll)))])}
 		cls := map[string]bool{"crash_before_" + im.meta.Op + "_" + fileClass(im.meta.Path): true, "phase_" + im.meta.Phase: true}
+		if c.Huge {
+			cls["workload_with_multi_MiB_value"] = true
+		}
 		for n := range im.meta.Files {
 			if fileClass(n) == "wal" {
 				cls["image_with_wal"] = true
@@ -689,7 +716,7 @@ func (p *pipeline) runCase(c Case, fatal func(string, ...any)) {
 				pl.job.AckPath = filepath.Join(base, fmt.Sprintf("fack-%d.log", id+1))
 			}
 			add(pl)
-			if p.prop == "C03" && nestedAt[i] {
+			if p.prop == "C03" && nestedAt[i] && !c.Huge {
 				n := &planned{im: im, runs: []crashlib.Run{run1}, cls: map[string]bool{}, origin: "snapshot", nested: true, followup: c.Followup}
 				n.job.SrcDir = im.dir
 				n.job.Workload.Txns = c.Followup
@@ -699,6 +726,16 @@ func (p *pipeline) runCase(c Case, fatal func(string, ...any)) {
 				add(n)
 			}
 		case "C14":
+			if nestedAt[i] && !c.Huge {
+				// crash again during the recovery of this image (uncut): the images of THAT recovery are cut below
+				n := &planned{im: im, runs: []crashlib.Run{run1}, cls: map[string]bool{}, origin: "snapshot", nested: true, followup: c.Followup}
+				n.job.SrcDir = im.dir
+				n.job.Workload.Txns = c.Followup
+				n.job.AckPath = filepath.Join(base, fmt.Sprintf("nack-%d.log", id+1))
+				n.job.SnapDir = filepath.Join(base, fmt.Sprintf("nsnaps-%d", id+1))
+				n.job.MaxSnaps = 300
+				add(n)
+			}
 			for _, cut := range p.cuts(im, c.CutSeeds) {
 				desc := ""
 				ccls := map[string]bool{}
@@ -786,15 +823,40 @@ func (p *pipeline) runCase(c Case, fatal func(string, ...any)) {
 		imgs2 := loadImages(pl.job.SnapDir)
 		var plan2 []*planned
 		var jobs2 []recoverJob
-		for n, im2 := range imgs2 {
+		n := 0
+		for _, im2 := range imgs2 {
 			run2 := crashlib.Run{Txns: c.Followup, Ack: crashlib.ParseAck(ack2All[:min64(im2.meta.AckOff, int64(len(ack2All)))])}
 			cls := map[string]bool{"crash_during_recovery": true, "nested_phase_" + im2.meta.Phase: true, "crash_before_" + im2.meta.Op + "_" + fileClass(im2.meta.Path): true}
-			q := &planned{im: im2, runs: []crashlib.Run{pl.runs[0], run2}, cls: cls,
-				origin: fmt.Sprintf("crash during the recovery (+ follow-up) of the image before op %d of the workload", pl.im.meta.Seq)}
-			q.job = recoverJob{ID: n + 1, SrcDir: im2.dir, WorkDir: filepath.Join(base, "work"), Workload: crashlib.Workload{Cfg: c.W.Cfg, Keys: c.W.Keys}}
+			origin := fmt.Sprintf("crash during the recovery (+ follow-up) of the image before op %d of the workload", pl.im.meta.Seq)
+			if p.prop == "C14" {
+				for _, cut := range p.cuts(im2, c.CutSeeds[:2]) {
+					desc := ""
+					ccls := map[string]bool{"nested_cut": true}
+					for k, v := range cls {
+						ccls[k] = v
+					}
+					var names []string
+					for nm := range cut {
+						names = append(names, nm)
+					}
+					sort.Strings(names)
+					for _, nm := range names {
+						desc += fmt.Sprintf("%s %d->%d (synced %d) ", nm, im2.meta.Files[nm].Written, cut[nm], im2.meta.Files[nm].Synced)
+						ccls["cut_"+fileClass(nm)] = true
+					}
+					q := &planned{im: im2, runs: []crashlib.Run{pl.runs[0], run2}, cls: ccls, origin: origin, cut: desc}
+					q.job = recoverJob{ID: len(plan2) + 1, SrcDir: im2.dir, Cuts: cut, WorkDir: filepath.Join(base, "work"), Workload: crashlib.Workload{Cfg: c.W.Cfg, Keys: c.W.Keys}}
+					plan2 = append(plan2, q)
+					jobs2 = append(jobs2, q.job)
+				}
+				continue
+			}
+			q := &planned{im: im2, runs: []crashlib.Run{pl.runs[0], run2}, cls: cls, origin: origin}
+			q.job = recoverJob{ID: len(plan2) + 1, SrcDir: im2.dir, WorkDir: filepath.Join(base, "work"), Workload: crashlib.Workload{Cfg: c.W.Cfg, Keys: c.W.Keys}}
 			plan2 = append(plan2, q)
 			jobs2 = append(jobs2, q.job)
 		}
+		_ = n
 		res2 := runBatch(base, jobs2)
 		for _, q := range plan2 {
 			f := judge(res2[q.job.ID], c.W.Keys, q.runs, nil, nil, q.cls)
@@ -802,9 +864,18 @@ func (p *pipeline) runCase(c Case, fatal func(string, ...any)) {
 			if f == nil {
 				continue
 			}
-			if !p.owned(f, false) {
+			if !p.owned(f, q.cut != "") {
 				p.rec.Count("foreign_"+f.kind, 1)
 				continue
+			}
+			if q.cut != "" {
+				// C14's business only if the same nested image passes without the cut
+				uj := recoverJob{ID: 1, SrcDir: q.im.dir, WorkDir: filepath.Join(base, "work"), Workload: crashlib.Workload{Cfg: c.W.Cfg, Keys: c.W.Keys}}
+				ur := runBatch(base, []recoverJob{uj})
+				if g := judge(ur[1], c.W.Keys, q.runs, nil, nil, map[string]bool{}); g != nil {
+					p.rec.Count("foreign_uncut_image_already_fails", 1)
+					continue
+				}
 			}
 			p.report(f, mkReplay(q, q.im.meta, q.im.dir, q.origin), fatal)
 			return
